@@ -416,9 +416,9 @@ class Channel(Transformation):
             # determine the combined first parameter
 
             T = np.dot(other.p[0], self.p[0])
-            # if one, replace with the identity
+            # if one, replace with the identity (a symbolic product cannot be tested)
             T_arr = np.atleast_2d(T)
-            if np.allclose(T_arr, np.eye(T_arr.shape[0])):
+            if not par_is_symbolic(T) and np.allclose(T_arr, np.eye(T_arr.shape[0])):
                 return None
 
             # return a copy
